@@ -50,6 +50,15 @@ static void setup(void) {
     }
     if (!wasiInit(1, argv, envp) || !wasiFileDescriptorAdd(-1, a, &pre)) { fprintf(hx_out, "HARNESS-ERROR wasiInit\n"); _exit(71); }
     fprintf(hx_out, "INFO preopen=%u path=%s\n", pre, a);
+    {   /* a second pre-opened directory, registered the other way the embedder API allows: together with a native descriptor that is open on it */
+        char b2[600]; U32 pre2 = 0; int nfd;
+        snprintf(b2, sizeof b2, "%s/B", hx_work); hx_mkdir(b2);
+        snprintf(p, sizeof p, "%s/f", b2); hx_write_file(p, "second");
+        snprintf(p, sizeof p, "%s/sub", b2); hx_mkdir(p);
+        nfd = open(b2, O_RDONLY | O_DIRECTORY);
+        if (nfd < 0 || !wasiFileDescriptorAdd(nfd, b2, &pre2)) { fprintf(hx_out, "HARNESS-ERROR second pre-open\n"); _exit(71); }
+        fprintf(hx_out, "INFO preopen2=%u path=%s\n", pre2, b2);
+    }
 }
 
 static void iov3(void) {
